@@ -310,6 +310,12 @@ func (t *Tree) parseInnerExpr() (Expr, error) {
 		if nxt.tokenType == tokenPunctuation && nxt.value == "." {
 			val = val + "."
 			t.next()
+			if t.peek().tokenType != tokenNumber {
+				// Not a decimal: the dot starts an attribute access on the number, as in
+				// "rows.0.name". Leave it to the caller, exactly as when whitespace precedes it.
+				t.backup()
+				return NewNumberExpr(tok.value, tok.Pos), nil
+			}
 			nxt, err := t.expect(tokenNumber)
 			if err != nil {
 				return nil, err
